@@ -64,6 +64,19 @@ CHECKS = {
         design_ref='DESIGN.md §2 C15',
         note='Trusted: the reference formula min(base, base*exp(-a(d-lower)^p)); fractional powers only with lower = 0; all selected atoms have positions.',
         technique='Hypothesis generated inputs vs. O(n^2) reference implementation + metamorphic rigid-motion/reordering relation'),
+    'C13': dict(
+        category='exploration',
+        text=('Model-based round trip for .ff files: an abstract file (blocks, links, modifications, macros, variables, citations in '
+              'any order and number; sub-sections in any order and repeated; #meta lines, per-line metas, versions, !removal sections, '
+              'patterns, features, non-edges, molmeta, edges; order by prefix, attribute or both) is serialised by the harness with '
+              'random legal layout, loaded with read_ff and compared item by item, in file order and "exactly once", with the '
+              'expectation computed from the abstract model. Each listed fault (unknown section, undefined / out-of-range block atom, '
+              'duplicate atom, unbalanced braces, prefix/order contradiction, too few / too many atoms before "--", too few tokens) is '
+              'injected at generated positions and must be rejected. Literal examples of the documented grammar must load. '
+              'This found and now guards F3, F11, F12, F14; F13 (SETTLE) is an open known finding.'),
+        design_ref='DESIGN.md §2 C13',
+        note='Trusted: the expectation computed from the abstract model (written from doc/source/file_formats.rst and the tokenizer docstring). .itp/.map/.mapping readers: see the c13 parts list in evidence; unique block/modification names; consistent per-atom attributes.',
+        technique='Hypothesis grammar-based generation + model-based round trip; fault injection at generated positions'),
 }
 
 NOT_YET = 'check not built yet in this round (planned, see DESIGN.md §2)'
